@@ -1,7 +1,7 @@
 (* C20 -- schema diffing reports every difference with a severity matching
    client impact.  Statements only; proofs are in Proofs/DifferProofs.v. *)
-From PyGql Require Import Schema.SchemaFull Schema.DifferModel Spec.DifferSpec Proofs.DifferProofs
-  Proofs.DifferEditProofs Proofs.DifferSoundProofs.
+From PyGql Require Import Schema.SchemaFull Schema.DifferModel Spec.DifferSpec Spec.DifferClientSpec
+  Proofs.DifferProofs Proofs.DifferEditProofs Proofs.DifferSoundProofs Proofs.DifferClientProofs.
 From Coq Require Import Permutation.
 
 (* Output positions: when the differ's (repaired) output predicate calls a
@@ -93,38 +93,94 @@ Example C20_example_edit :
      = [mkChange CFieldArgumentDefaultValueChange Breaking [S "Query"; S "f"; S "x"]].
 Proof. vm_compute. repeat split; reflexivity. Qed.
 
-(* Whenever the differ reports no change of severity BREAKING, every query
-   operation valid against the old schema stays valid against the new one, for
-   the rule core of Spec/DifferSpec.v (FieldsOnCorrectType, KnownArgumentNames,
-   ProvidedRequiredArguments, known composite type conditions, ScalarLeafs), all
-   selection depths.  Partial: the rule core only (not the full validation
-   rule set, no variables/values/directives, query root only); hypotheses: the
-   new schema has unique member names (it passed validate()), both schemas
-   agree on which names are introspection types, same query root. *)
-Theorem C20_no_breaking_sound_partial : forall o n op,
-  has_breaking (diff_model o n) = false ->
-  same_builtins o n -> wf_schema n -> s_query o = s_query n ->
-  client_ok o op -> client_ok n op.
+(* The guard of C20_edit_reported_partial is exactly the complement of the open
+   finding: an applicable edit is reportable or it is a retype to a different
+   type that the differ's predicate calls safe -- never both.  Any third class
+   of unreported edits would contradict C20_edit_reported_partial. *)
+Theorem C20_reportable_exact : forall e s,
+  applicable e s ->
+  (reportable e s \/ safe_retype e s) /\ ~ (reportable e s /\ safe_retype e s).
 Proof.
-  intros o n op H Hb Hw Hq. apply no_breaking_sound; try assumption.
-  apply has_breaking_false; exact H.
+  intros e s Ha. split; [apply reportable_or_safe_retype; exact Ha|].
+  intros [H1 H2]. exact (reportable_excludes_safe_retype e s H1 H2).
+Qed.
+Print Assumptions C20_reportable_exact.
+
+(* The value-level clause at schema level: when nothing BREAKING is reported,
+   every output position present in both schemas is at least as strict as
+   before (fields of object and interface types) and every input position at
+   least as permissive (field arguments, input object fields, directive
+   arguments) -- for every typing of the named types. *)
+Theorem C20_positions_sound : forall (base : str -> pv -> Prop) o n,
+  has_breaking (diff_model o n) = false ->
+  output_positions_ok base o n /\ argument_positions_ok base o n
+  /\ input_field_positions_ok base o n /\ directive_argument_positions_ok base o n.
+Proof.
+  intros base o n H. apply has_breaking_false in H. repeat split.
+  - apply output_positions_sound; exact H.
+  - apply argument_positions_sound; exact H.
+  - apply input_field_positions_sound; exact H.
+  - apply directive_argument_positions_sound; exact H.
+Qed.
+Print Assumptions C20_positions_sound.
+
+(* Whenever the differ reports no change of severity BREAKING, every operation
+   (query, mutation or subscription) valid against the old schema is valid
+   against the new one, for the schema-dependent rules of
+   Spec/DifferClientSpec.v [op_ok]: FieldsOnCorrectType, ScalarLeafs,
+   KnownArgumentNames and ProvidedRequiredArguments (fields and directives),
+   ValuesOfCorrectType (literals, enum values, input objects, list coercion),
+   VariablesInAllowedPosition, KnownTypeNames / VariablesAreInputTypes
+   (variable definitions), KnownTypeNames / FragmentsOnCompositeTypes (type
+   conditions), PossibleFragmentSpreads (inline fragments), KnownDirectives
+   (name, location), at every selection depth.  Each rule is a lemma of its
+   own in Proofs/DifferClientProofs.v (rule_*_kept, args_ok_kept, csel_ok_kept).
+   Partial: named fragments and OverlappingFieldsCanBeMerged are not in the
+   document model.  Hypotheses: the new schema has unique member names (it
+   passed validate()); both schemas agree on the introspection names and on
+   the specified directives; same root operation types (roots are not compared
+   by the differ and are not an elementary edit of the statement). *)
+Theorem C20_no_breaking_sound_partial : forall scalar_lit o n op,
+  has_breaking (diff_model o n) = false ->
+  same_builtins o n -> wf_schema n ->
+  (forall dn d, find_dir (s_dirs o) dn = Some d -> d_specified d = true -> find_dir (s_dirs n) dn = Some d) ->
+  (forall k, root_of o k = root_of n k) ->
+  op_ok scalar_lit o op -> op_ok scalar_lit n op.
+Proof.
+  intros scalar_lit o n op H. apply operations_kept. apply has_breaking_false; exact H.
 Qed.
 Print Assumptions C20_no_breaking_sound_partial.
 
-Example C20_example_client :
+(* non-vacuity: query ($v: Int!) { f(x: $v) ... on Query { f(x: 3) } } *)
+Definition ex_lit (n : str) (v : value) : bool :=
+  match v with VInt => str_eqb n (S "Int") | _ => false end.
+Example C20_example_operation :
   let o := ex_schema (TyNamed (S "Int")) in
-  let n := apply_edit (ERetypeArg (S "Query") (S "f") (S "x") (TyNamed (S "Int")))
-             (apply_edit (ERetypeField (S "Query") (S "f") (TyNonNull (TyNamed (S "Int")))) o) in
-  has_breaking (diff_model o n) = false
-  /\ client_ok o [SelField (S "f") [S "x"] []]
-  /\ has_breaking (diff_model n o) = true.
+  op_ok ex_lit o
+    (mkOp OQuery [(S "v", (TyNonNull (TyNamed (S "Int")), false))] []
+       [CField (S "f") [(S "x", VVar (S "v"))] [] [];
+        CInline (Some (S "Query")) [] [CField (S "f") [(S "x", VInt)] [] []]]).
 Proof.
-  split; [vm_compute; reflexivity|]. split; [|vm_compute; reflexivity].
   exists (S "Query"). split; [reflexivity|]. split; [vm_compute; discriminate|].
-  constructor; [|constructor]. simpl.
-  eexists. eexists. split; [vm_compute; reflexivity|]. split; [vm_compute; reflexivity|].
-  split; [|split].
-  - intros a [<-|[]]. vm_compute. discriminate.
-  - intros a [<-|[]] _. left; reflexivity.
-  - vm_compute. reflexivity.
+  split.
+  { constructor; [|constructor]. eexists. split; [vm_compute; reflexivity|]. left; reflexivity. }
+  split; [constructor|].
+  assert (Hreq : forall given, In (S "x") (map fst given) ->
+            required_args_given [mkArg (S "x") (S "x") (TyNonNull (TyNamed (S "Int"))) None] given).
+  { intros given Hin a [<-|[]] _. exact Hin. }
+  constructor; [|constructor; [|constructor]].
+  - simpl. eexists. eexists. split; [split; vm_compute; reflexivity|].
+    split; [|split; [constructor|vm_compute; reflexivity]].
+    split; [|apply Hreq; left; reflexivity].
+    constructor; [|constructor]. eexists. split; [vm_compute; reflexivity|].
+    eapply vo_var; [vm_compute; reflexivity|vm_compute; reflexivity].
+  - simpl. split; [vm_compute; discriminate|]. split.
+    { exists (S "Query"). split; eexists; eexists; eexists; (split; [vm_compute; reflexivity|left; reflexivity]). }
+    split; [constructor|]. split; [|exact I].
+    eexists. eexists. split; [split; vm_compute; reflexivity|].
+    split; [|split; [constructor|vm_compute; reflexivity]].
+    split; [|apply Hreq; left; reflexivity].
+    constructor; [|constructor]. eexists. split; [vm_compute; reflexivity|].
+    apply vo_non_null; [discriminate|intros x; discriminate|].
+    apply vo_scalar; [vm_compute; reflexivity|vm_compute; reflexivity].
 Qed.
